@@ -198,6 +198,12 @@ impl Command for Dyn {
                 }
                 CommandResult::Continue(None)
             }
+            "vset" => {
+                if a.len() >= 2 {
+                    ctx.variables.insert(a[0].clone(), a[1].clone());
+                }
+                CommandResult::Continue(None)
+            }
             "stget" => {
                 if a.is_empty() {
                     return CommandResult::Continue(None);
